@@ -35,7 +35,10 @@ RULE = ("small MILPs with integer data in -5..9, 2-5 variables (6 thorough), eve
         "adversarial: one clause of _is_feasible violated in an objective-improving direction, "
         "solution_limit 2/5, small max_nodes, max_iter just above the largest single-node pivot count); families "
         "also scaled single-variable bound rows k x_j <= k (k of both signs) on every integer variable, and (thorough) "
-        "large-tree knapsacks judged through the certified mirror; non-trivial = the default run explored >= 2 nodes; "
+        "large-tree knapsacks judged through the certified mirror; 7-10 variable binary problems with heuristics + LNS "
+        "(lns_iterations 1/3/5, lns_destroy_frac 0.3/0.5/0.8) judged by the oracle / certified mirror, with "
+        "_solve_sub_mip and _lns_improve also called directly; maximise-mixed-sign instances pre-screened with the "
+        "mirror for an incumbent whose objective is the negated bound of its node; non-trivial = the default run explored >= 2 nodes; "
         "distinct by canonical (c, A, b, integers, minimize)")
 
 MISSING = []   # Lp.Bnb mirror + refinement (bnb_mirror_refines / bnb_mirror_sound / solveMilp_sound) are proved; the
@@ -44,7 +47,7 @@ MISSING = []   # Lp.Bnb mirror + refinement (bnb_mirror_refines / bnb_mirror_sou
 EPS = 1e-6
 GAP_TOL = 1e-6
 TOL_OBJ = 1e-7
-MAX_BOX = 4000
+MAX_BOX = 800
 
 
 # ---------------------------------------------------------------------------
@@ -409,6 +412,48 @@ def measure_node_pivots(case):
     return seen[0]
 
 
+def lns_component_points(case, base_x):
+    """`_solve_sub_mip` and `_lns_improve` called directly on sub-problems around the default run's solution (when
+    it is 0/1 on the integer variables): whatever they return as an incumbent goes to the proved filter"""
+    import hashlib
+    import random as _r
+    pts = []
+    ints = list(case["integers"])
+    if base_x is None or len(ints) < 2:
+        return pts
+    x0 = [float(v) for v in base_x]
+    if any(abs(x0[j] - round(x0[j])) > EPS or not (-EPS <= x0[j] <= 1 + EPS) for j in ints):
+        return pts
+    try:
+        from solvor.milp import _lns_improve, _solve_sub_mip
+    except ImportError:
+        return pts
+    seed = int(hashlib.sha1(json.dumps([case["c"], case["A"], case["b"], ints], default=str).encode())
+               .hexdigest()[:8], 16)
+    rng = _r.Random(seed)
+    c, A, b = list(case["c"]), [list(r_) for r_ in case["A"]], list(case["b"])
+    for _ in range(6):
+        k = rng.randint(2, min(5, len(ints)))
+        free = set(rng.sample(ints, k))
+        try:
+            cand = _solve_sub_mip(tuple(x0), c, A, b, set(ints), free, case["minimize"], EPS, DEFAULT_MAX_ITER)
+        except Exception as e:  # noqa: BLE001
+            pts.append(("raise:_solve_sub_mip", list(x0), f"{type(e).__name__}: {e}"))
+            continue
+        if cand is not None:
+            pts.append(("incumbent:_solve_sub_mip", [float(v) for v in cand], True))
+    for frac in (0.3, 0.5, 0.8):
+        try:
+            sol, _ = _lns_improve(tuple(x0), c, A, b, set(ints), case["minimize"], EPS, DEFAULT_MAX_ITER,
+                                  3, frac, _r.Random(rng.randint(0, 999)))
+        except Exception as e:  # noqa: BLE001
+            pts.append(("raise:_lns_improve", list(x0), f"{type(e).__name__}: {e}"))
+            continue
+        if sol is not None:
+            pts.append(("incumbent:_lns_improve", [float(v) for v in sol], True))
+    return pts
+
+
 def impl(case):
     warnings.simplefilter("ignore")
     from solvor.milp import solve_milp, _is_feasible, _detect_binary
@@ -450,6 +495,7 @@ def impl(case):
         except Exception as e:  # noqa: BLE001
             v = f"{type(e).__name__}: {e}"
         filt.append((label, x, v))
+    filt += lns_component_points(case, base_x)
     det = []
     for label, A2, b2, ints2, n2 in detbin_sets(case):
         try:
@@ -489,7 +535,9 @@ def judge_trace(ctx, case, cfg, o, rp):
     """R_trace: the step-by-step mirror `solveMilp` returns the same Result as solve_milp(heuristics=False)."""
     fn = "solve_milp"
     r = o[1]
-    st, x, obj, _nodes, sols, near, nodes_ok, _lp_it = rp
+    st, x, obj, _nodes, sols, near, nodes_ok, _lp_it, neg_tie = rp
+    if neg_tie:
+        ctx.count("mirror_incumbent_at_negated_bound")
     # per-input discharge of the refinement theorem's hypothesis (every explored node LP certificate-checked)
     ctx.count("refinement_nodes_certified" if nodes_ok else "refinement_nodes_uncertified")
     same = st == r["status"]
@@ -549,7 +597,8 @@ def to_request(case, out, filt=None):
                 impls.append(["ERROR", None, None, []])
     pts = [enc_point(x) for _, x, _ in (filt or [])]
     return ["milp", enc_vec(case["c"]), enc_mat(case["A"]), enc_vec(case["b"]), list(case["integers"]),
-            bool(case["minimize"]), rat(EPS), rat(TOL_OBJ), MAX_BOX, impls, [p_ for p_ in pts if p_ is not None]]
+            bool(case["minimize"]), rat(EPS), rat(TOL_OBJ), int(case.get("max_box", MAX_BOX)), impls,
+            [p_ for p_ in pts if p_ is not None]]
 
 
 # ---------------------------------------------------------------------------
@@ -571,6 +620,14 @@ def judge_filter(ctx, case, filt, verdicts):
         ctx.count("filter_points")
         rp = {"case": {k: case[k] for k in ("c", "A", "b", "integers", "minimize")}, "point": x, "label": lab,
               "impl": v, "mirror": [lo, mid, hi, clause]}
+        if lab.startswith("incumbent:"):
+            # a point an LNS component returned as an incumbent: it must pass the proved filter
+            ctx.count("heuristic_incumbents_checked")
+            if lo == mid == hi and not mid:
+                ctx.fail(lab.split(":")[1], "returns_infeasible_incumbent:" + CLAUSE.get(clause, "?"),
+                         f"{lab.split(':')[1]} returned {x} as an incumbent; it violates the {CLAUSE.get(clause)} "
+                         "clause of the proved isFeasible", rp)
+            continue
         if not isinstance(v, bool):
             ctx.fail(fn, "raises:" + str(v).split(":", 1)[0], f"_is_feasible raised on {x}: {v}", rp)
             continue
@@ -610,7 +667,9 @@ def judge_detbin(ctx, case, det, verdicts):
                      f"_detect_binary rejects rows [{label}] that are explicit x_j <= 1 bounds of {ints2}", rp)
 
 
-def judge(ctx, case, out, reply):
+def judge(ctx, case, out, reply, cert=None):
+    """`cert` = (status, objective) of the mirror's plain heuristics=False run when every node LP of it passed
+    nodeCheck (solveMilp_sound makes it the truth for this input); used when the exhaustive oracle's box is too big"""
     fn = "solve_milp"
     rep = {"case": case, "impl": out, "model": reply}
     if out[0] != "ok":
@@ -621,6 +680,10 @@ def judge(ctx, case, out, reply):
     kind, val, _pt, box = oracle
     if kind == "FAIL" or not r_ok:
         raise core.Infra(f"oracle produced no valid certificate for {case}")
+    if kind in ("TOOBIG", "NOBOX") and cert is not None and cert[0] in ("OPTIMAL", "INFEASIBLE"):
+        kind, val = cert[0], cert[1]
+        oracle = [kind, val, None, "certified mirror (solveMilp_sound)"]
+        ctx.count("oracle_by_certified_mirror")
     ctx.count("oracle:" + kind)
     ctx.count("family:" + case["family"])
     ctx.count("relaxation:" + r_verdict)
@@ -743,6 +806,14 @@ def run_cases(ctx, cases, shrink_mode=False):
     failed = []
     orig_fail = ctx.fail
     lost = {ci for (ci, k), rp in zip(owner, replies) if rp is None and k is None}
+    # the mirror's plain heuristics=False run as a second, certified oracle (solveMilp_sound)
+    certs = {}
+    for (ci, k), rp in zip(owner, replies):
+        if rp is None or k in (None, "detbin") or rp[0] == "error":
+            continue
+        cfg = cases[ci]["configs"][k]
+        if cfg == {"heuristics": False} and rp[6] and not (rp[3] >= node_cap):
+            certs[ci] = (rp[0], rp[2])
     for (ci, k), rp in zip(owner, replies):
         c, o = cases[ci], outs[ci]
         if rp is None or ci in lost:
@@ -758,7 +829,7 @@ def run_cases(ctx, cases, shrink_mode=False):
         ctx.fail = rec
         try:
             if k is None:
-                judge(ctx, c, o, rp)
+                judge(ctx, c, o, rp, certs.get(ci))
                 judge_filter(ctx, c, filts[ci], rp[3])
             elif k == "detbin":
                 judge_detbin(ctx, c, dets[ci], rp)
@@ -806,6 +877,72 @@ def shrink_failures(ctx, failed, limit=2):
         small, hist = shrink(case, milp_candidates, fails_batch((function, klass), ctx.tier), max_rounds=60,
                              max_seconds=LIMITS[ctx.tier]["shrink_total"] / 2, deadline=deadline)
         write_min(ctx, "C04", function, klass, small, hist)
+
+
+def gen_lns_instance(rng):
+    """7-10 binary variables with explicit x_j <= 1 rows (knapsack / covering like): heuristics ON with LNS, where
+    `_solve_sub_mip` gets >= 2 unfixed integer variables per pass; judged by R_prop only (the heuristics are not
+    mirrored): the exhaustive oracle up to 2^7, beyond that the certified mirror of the heuristics=False run"""
+    n = rng.randint(7, 10)
+    k = rng.randint(1, 3)
+    A, b = [], []
+    if rng.random() < 0.7:
+        W = [[rng.randint(2, 9) for _ in range(n)] for _ in range(k)]
+        for row in W:
+            A.append(list(row)); b.append(rng.randint(sum(row) // 3, (2 * sum(row)) // 3))
+        c = [max(1, W[0][j] + rng.randint(-2, 3)) for j in range(n)]
+        minimize = False
+    else:
+        W = [[rng.randint(0, 6) for _ in range(n)] for _ in range(k)]
+        for row in W:
+            A.append([-v for v in row]); b.append(-rng.randint(max(1, sum(row) // 4), max(2, sum(row) // 2)))
+        c = [rng.randint(1, 9) for _ in range(n)]
+        minimize = True
+    for j in range(n):
+        A.append([1 if t == j else 0 for t in range(n)]); b.append(1)
+    cfgs = [{}, {"heuristics": False}]
+    for _ in range(4):
+        cfgs.append({"lns_iterations": rng.choice([1, 3, 5]), "lns_destroy_frac": rng.choice([0.3, 0.5, 0.8]),
+                     "seed": rng.randint(0, 999)})
+    if rng.random() < 0.5:
+        cfgs.append({"lns_iterations": 3, "lns_destroy_frac": 0.5, "seed": rng.randint(0, 999), "warm": "feasible"})
+    return {"family": "lns", "c": c, "A": A, "b": b, "integers": list(range(n)), "minimize": minimize,
+            "configs": cfgs, "max_box": 130}
+
+
+def gen_signslip_candidate(rng):
+    """maximise a MIXED-SIGN objective over 2-3 bounded variables with small mixed-sign rows: objective values of both
+    signs are reachable at different nodes"""
+    n = rng.choice([2, 2, 3])
+    c = [rng.randint(-4, 4) for _ in range(n)]
+    if not (any(v > 0 for v in c) and any(v < 0 for v in c)):
+        c[0] = -rng.randint(1, 3); c[1] = rng.randint(1, 4)
+    A, b = [], []
+    for _ in range(rng.randint(1, 3)):
+        A.append([rng.randint(-3, 3) for _ in range(n)]); b.append(rng.randint(-3, 4))
+    for j in range(n):
+        A.append([1 if t == j else 0 for t in range(n)]); b.append(rng.randint(1, 3))
+    ints = list(range(n)) if rng.random() < 0.8 else sorted(rng.sample(range(n), n - 1))
+    return {"family": "signslip", "c": c, "A": A, "b": b, "integers": ints, "minimize": False}
+
+
+def gen_signslip_cases(ctx, tries, want):
+    """targeted at the early `gap < gap_tol` exit: candidates are pre-screened with the Bnb mirror (cheap) and kept
+    when a new incumbent's objective is non-zero and equals the NEGATED bound of its node (monitor `negTie`) – where
+    forgetting to convert the sign-adjusted bound back reads the gap as closed"""
+    cands = [gen_signslip_candidate(ctx.rng) for _ in range(tries)]
+    reqs = [["bnb", enc_vec(c["c"]), enc_mat(c["A"]), enc_vec(c["b"]), sorted(c["integers"]), False, rat(EPS),
+             DEFAULT_MAX_ITER, 2000, rat(GAP_TOL), 1, None] for c in cands]
+    replies, dropped = safe_run(reqs, LIMITS[ctx.tier]["drv"])
+    note_dropped(ctx, dropped, "C04 sign-slip pre-screen")
+    keep = []
+    for c, rp in zip(cands, replies):
+        if rp is None or rp[0] == "error":
+            continue
+        if rp[8]:
+            c["configs"] = [{}, {"heuristics": False}, {"lns_iterations": 3, "seed": 1}, {"warm": "feasible"}]
+            keep.append(c)
+    return keep[:want]
 
 
 def gen_big_knapsack(rng):
@@ -857,6 +994,8 @@ def run(ctx, budget):
         fresh.append(inst)
     add_max_iter_configs(ctx, fresh)
     cases += fresh
+    cases += [gen_lns_instance(ctx.rng) for _ in range(60 * budget)]
+    cases += gen_signslip_cases(ctx, tries=(40000 if budget == 1 else 10000 * budget), want=60 * budget)
     if ctx.tier == "thorough":
         for t in range(3):       # spread over the request list so that they land in different driver processes
             cases.insert((t * len(cases)) // 3, gen_big_knapsack(ctx.rng))
